@@ -458,8 +458,9 @@ func checkFlagLetters(ctx *Ctx) {
 // checkLoggerRegion: structural rules on RunUntil's use of Logger.
 func checkLoggerRegion(ctx *Ctx) {
 	R := ctx.R
-	fn := ctx.Prog.Method("emulator", "System", "RunUntil")
+	mainFn := ctx.Prog.Method("emulator", "System", "RunUntil")
 	sysT := ctx.Prog.Pkg("emulator").Type("System")
+	fn := mainFn // the function being scanned: RunUntil, then each logging helper
 	if fn == nil || sysT == nil {
 		R.Fail("before", "RunUntil", "", "emulator.(*System).RunUntil not found")
 		return
@@ -481,6 +482,29 @@ func checkLoggerRegion(ctx *Ctx) {
 	L, step := loops[0], steps[0]
 	okPure, okBefore := true, true
 	nWrites, nAssert := 0, 0
+	// logging helpers: other module functions that read the Logger field. They are scanned like RunUntil itself and,
+	// in addition, must be nothing but logging: no result, no store outside their own locals, no call other than
+	// the renderer, Logger.Write, capability methods and other helpers.
+	helpers := map[*ssa.Function]bool{}
+	var helperList []*ssa.Function
+	for _, f := range ctx.Prog.AllFuncs() {
+		if f == mainFn || f.Blocks == nil {
+			continue
+		}
+		for _, b := range f.Blocks {
+			for _, in := range b.Instrs {
+				if u, ok := in.(*ssa.UnOp); ok && isFieldLoad(u, named, li) && !helpers[f] {
+					helpers[f] = true
+					helperList = append(helperList, f)
+				}
+			}
+		}
+	}
+	writesIn := map[*ssa.Function]bool{} // helpers that (transitively) write a trace line
+	isHelperCall := func(y *ssa.Call) bool {
+		c := y.Call.StaticCallee()
+		return c != nil && helpers[c]
+	}
 	// checkRegion: the blocks dominated by edge iff->Succs[rk] hold only allowed calls,
 	// no stores, and no value defined there (or chosen by having been there) flows out.
 	checkRegion := func(iff *ssa.If, rk int, name string, allowed func(*ssa.Call) bool, allowedDesc string) {
@@ -513,7 +537,7 @@ func checkLoggerRegion(ctx *Ctx) {
 			for _, ri := range rb.Instrs {
 				switch y := ri.(type) {
 				case *ssa.Call:
-					if !allowed(y) {
+					if !allowed(y) && !isHelperCall(y) {
 						okPure = false
 						R.Fail("pure", "RunUntil:"+name+":"+y.String(), ctx.Prog.Pos(y.Pos()), "the region calls something other than "+allowedDesc)
 					}
@@ -521,6 +545,9 @@ func checkLoggerRegion(ctx *Ctx) {
 					okPure = false
 					R.Fail("pure", "RunUntil:"+name+":store", ctx.Prog.Pos(ri.Pos()), "the region has an effect other than its allowed calls: "+ri.String())
 				case *ssa.Return:
+					if fn != mainFn {
+						break // a helper without results: leaving it early decides nothing
+					}
 					okPure = false
 					R.Fail("pure", "RunUntil:"+name+":return", ctx.Prog.Pos(ri.Pos()), "RunUntil returns from inside the region")
 				}
@@ -573,127 +600,199 @@ func checkLoggerRegion(ctx *Ctx) {
 			}
 		}
 	}
-	for _, b := range fn.Blocks {
-		for _, in := range b.Instrs {
-			u, ok := in.(*ssa.UnOp)
-			if !ok || !isFieldLoad(u, named, li) {
-				continue
-			}
-			for _, ref := range *u.Referrers() {
-				switch x := ref.(type) {
-				case *ssa.DebugRef:
-				case *ssa.BinOp:
-					// nil test guarding the logging region
-					c, isC := x.Y.(*ssa.Const)
-					if !(isC && c.Value == nil && (x.Op == token.NEQ || x.Op == token.EQL)) {
-						okPure = false
-						R.Fail("pure", "RunUntil:Logger-use:"+x.String(), ctx.Prog.Pos(x.Pos()), "Logger is compared with something other than nil")
-						break
-					}
-					// the guarded region: blocks dominated by the logging edge
-					for _, r2 := range *x.Referrers() {
-						iff, ok := r2.(*ssa.If)
-						if !ok {
-							continue
-						}
-						rk := 0
-						if x.Op == token.EQL {
-							rk = 1
-						}
-						checkRegion(iff, rk, "logging-region", func(y *ssa.Call) bool {
-							callee := y.Call.StaticCallee()
-							isWrite := y.Call.IsInvoke() && y.Call.Method.Name() == "Write"
-							isRender := callee != nil && strings.HasPrefix(callee.Name(), "Disassemble")
-							return isWrite || isRender
-						}, "the renderer and Logger.Write")
-					}
-				case *ssa.TypeAssert:
-					// Reserver / Committer capability: the asserted value is used only as the
-					// receiver of interface calls, inside the region guarded by the ok result,
-					// and nothing computed there flows back into execution.
-					nAssert++
-					if !x.CommaOk {
-						okPure = false
-						R.Fail("pure", "RunUntil:Logger-capability:"+x.AssertedType.String(), ctx.Prog.Pos(x.Pos()), "capability assertion without ok result: a Logger lacking the capability panics, no Logger does not")
-						break
-					}
-					var val, okv ssa.Value
-					for _, r2 := range *x.Referrers() {
-						if e, ok := r2.(*ssa.Extract); ok {
-							if e.Index == 0 {
-								val = e
-							} else {
-								okv = e
-							}
-						}
-					}
-					if okv != nil {
-						for _, r2 := range *okv.Referrers() {
-							switch iff := r2.(type) {
-							case *ssa.If:
-								checkRegion(iff, 0, "capability-region:"+x.AssertedType.String(), func(y *ssa.Call) bool {
-									return y.Call.IsInvoke() && y.Call.Value == val
-								}, "a method of the asserted capability")
-							case *ssa.DebugRef:
-							default:
-								okPure = false
-								R.Fail("pure", "RunUntil:Logger-capability:ok-use", ctx.Prog.Pos(r2.Pos()), "the ok result of the capability assertion is used for something other than guarding a region: "+r2.String())
-							}
-						}
-					}
-					if val != nil {
-						for _, r2 := range *val.Referrers() {
-							switch y := r2.(type) {
-							case *ssa.DebugRef:
-							case *ssa.Call:
-								if !(y.Call.IsInvoke() && y.Call.Value == val) {
-									okPure = false
-									R.Fail("pure", "RunUntil:Logger-capability:use", ctx.Prog.Pos(y.Pos()), "the asserted capability is passed on: "+y.String())
-								} else if y.Type() != nil {
-									if tup, isT := y.Type().(*types.Tuple); !(isT && tup.Len() == 0) {
-										if refs := y.Referrers(); refs != nil && len(*refs) > 0 {
-											okPure = false
-											R.Fail("pure", "RunUntil:Logger-capability:result", ctx.Prog.Pos(y.Pos()), "a result of a capability call is consumed: "+y.String())
-										}
-									}
-								}
-							case *ssa.Defer:
-								if !(y.Call.IsInvoke() && y.Call.Value == val) {
-									okPure = false
-									R.Fail("pure", "RunUntil:Logger-capability:use", ctx.Prog.Pos(y.Pos()), "the asserted capability is passed on: "+y.String())
-								}
-							default:
-								okPure = false
-								R.Fail("pure", "RunUntil:Logger-capability:use", ctx.Prog.Pos(r2.Pos()), "unexpected use of the asserted capability: "+r2.String())
-							}
-						}
-					}
-				case *ssa.Call:
-					if x.Call.IsInvoke() && x.Call.Method.Name() == "Write" {
-						nWrites++
-						if !L.Body[x.Block()] {
+	scan := func() {
+		for _, b := range fn.Blocks {
+			for _, in := range b.Instrs {
+				u, ok := in.(*ssa.UnOp)
+				if !ok || !isFieldLoad(u, named, li) {
+					continue
+				}
+				for _, ref := range *u.Referrers() {
+					switch x := ref.(type) {
+					case *ssa.DebugRef:
+					case *ssa.BinOp:
+						// nil test guarding the logging region
+						c, isC := x.Y.(*ssa.Const)
+						if !(isC && c.Value == nil && (x.Op == token.NEQ || x.Op == token.EQL)) {
+							okPure = false
+							R.Fail("pure", "RunUntil:Logger-use:"+x.String(), ctx.Prog.Pos(x.Pos()), "Logger is compared with something other than nil")
 							break
 						}
-						if !reaches(x.Block(), step.Block(), L.Header) || reaches(step.Block(), x.Block(), L.Header) {
-							okBefore = false
-							R.Fail("before", "RunUntil:write-before-step", ctx.Prog.Pos(x.Pos()), "within an iteration the trace write does not precede Step")
+						// the guarded region: blocks dominated by the logging edge
+						for _, r2 := range *x.Referrers() {
+							iff, ok := r2.(*ssa.If)
+							if !ok {
+								continue
+							}
+							rk := 0
+							if x.Op == token.EQL {
+								rk = 1
+							}
+							checkRegion(iff, rk, "logging-region", func(y *ssa.Call) bool {
+								callee := y.Call.StaticCallee()
+								isWrite := y.Call.IsInvoke() && y.Call.Method.Name() == "Write"
+								isRender := callee != nil && strings.HasPrefix(callee.Name(), "Disassemble")
+								return isWrite || isRender
+							}, "the renderer and Logger.Write")
 						}
-						// what is written is the renderer's result
-						if len(x.Call.Args) == 1 {
-							if c, ok := x.Call.Args[0].(*ssa.Call); !ok || c.Call.StaticCallee() == nil || !strings.HasPrefix(c.Call.StaticCallee().Name(), "Disassemble") {
-								okBefore = false
-								R.Fail("before", "RunUntil:write-argument", ctx.Prog.Pos(x.Pos()), "the bytes written are not the renderer's result")
+					case *ssa.TypeAssert:
+						// Reserver / Committer capability: the asserted value is used only as the
+						// receiver of interface calls, inside the region guarded by the ok result,
+						// and nothing computed there flows back into execution.
+						nAssert++
+						if !x.CommaOk {
+							okPure = false
+							R.Fail("pure", "RunUntil:Logger-capability:"+x.AssertedType.String(), ctx.Prog.Pos(x.Pos()), "capability assertion without ok result: a Logger lacking the capability panics, no Logger does not")
+							break
+						}
+						var val, okv ssa.Value
+						for _, r2 := range *x.Referrers() {
+							if e, ok := r2.(*ssa.Extract); ok {
+								if e.Index == 0 {
+									val = e
+								} else {
+									okv = e
+								}
 							}
 						}
-					} else {
+						if okv != nil {
+							for _, r2 := range *okv.Referrers() {
+								switch iff := r2.(type) {
+								case *ssa.If:
+									checkRegion(iff, 0, "capability-region:"+x.AssertedType.String(), func(y *ssa.Call) bool {
+										return y.Call.IsInvoke() && y.Call.Value == val
+									}, "a method of the asserted capability")
+								case *ssa.DebugRef:
+								default:
+									okPure = false
+									R.Fail("pure", "RunUntil:Logger-capability:ok-use", ctx.Prog.Pos(r2.Pos()), "the ok result of the capability assertion is used for something other than guarding a region: "+r2.String())
+								}
+							}
+						}
+						if val != nil {
+							for _, r2 := range *val.Referrers() {
+								switch y := r2.(type) {
+								case *ssa.DebugRef:
+								case *ssa.Call:
+									if !(y.Call.IsInvoke() && y.Call.Value == val) {
+										okPure = false
+										R.Fail("pure", "RunUntil:Logger-capability:use", ctx.Prog.Pos(y.Pos()), "the asserted capability is passed on: "+y.String())
+									} else if y.Type() != nil {
+										if tup, isT := y.Type().(*types.Tuple); !(isT && tup.Len() == 0) {
+											if refs := y.Referrers(); refs != nil && len(*refs) > 0 {
+												okPure = false
+												R.Fail("pure", "RunUntil:Logger-capability:result", ctx.Prog.Pos(y.Pos()), "a result of a capability call is consumed: "+y.String())
+											}
+										}
+									}
+								case *ssa.Defer:
+									if !(y.Call.IsInvoke() && y.Call.Value == val) {
+										okPure = false
+										R.Fail("pure", "RunUntil:Logger-capability:use", ctx.Prog.Pos(y.Pos()), "the asserted capability is passed on: "+y.String())
+									}
+								default:
+									okPure = false
+									R.Fail("pure", "RunUntil:Logger-capability:use", ctx.Prog.Pos(r2.Pos()), "unexpected use of the asserted capability: "+r2.String())
+								}
+							}
+						}
+					case *ssa.Call:
+						if x.Call.IsInvoke() && x.Call.Method.Name() == "Write" {
+							if fn != mainFn {
+								writesIn[fn] = true
+							} else {
+								nWrites++
+								if !L.Body[x.Block()] {
+									break
+								}
+								if !reaches(x.Block(), step.Block(), L.Header) || reaches(step.Block(), x.Block(), L.Header) {
+									okBefore = false
+									R.Fail("before", "RunUntil:write-before-step", ctx.Prog.Pos(x.Pos()), "within an iteration the trace write does not precede Step")
+								}
+							}
+							// what is written is the renderer's result
+							if len(x.Call.Args) == 1 {
+								if c, ok := x.Call.Args[0].(*ssa.Call); !ok || c.Call.StaticCallee() == nil || !strings.HasPrefix(c.Call.StaticCallee().Name(), "Disassemble") {
+									okBefore = false
+									R.Fail("before", "RunUntil:write-argument", ctx.Prog.Pos(x.Pos()), "the bytes written are not the renderer's result")
+								}
+							}
+						} else {
+							okPure = false
+							R.Fail("pure", "RunUntil:Logger-use:"+x.String(), ctx.Prog.Pos(x.Pos()), "Logger is used for something other than Write / nil test / capability assertion")
+						}
+					default:
 						okPure = false
-						R.Fail("pure", "RunUntil:Logger-use:"+x.String(), ctx.Prog.Pos(x.Pos()), "Logger is used for something other than Write / nil test / capability assertion")
+						R.Fail("pure", fmt.Sprintf("RunUntil:Logger-use:%T", ref), ctx.Prog.Pos(ref.Pos()), "unexpected use of Logger: "+ref.String())
 					}
-				default:
-					okPure = false
-					R.Fail("pure", fmt.Sprintf("RunUntil:Logger-use:%T", ref), ctx.Prog.Pos(ref.Pos()), "unexpected use of Logger: "+ref.String())
 				}
 			}
+		}
+	}
+	scan()
+	for _, h := range helperList {
+		fn = h
+		hname := fnShort(h)
+		if h.Signature.Results().Len() > 0 {
+			okPure = false
+			R.Fail("pure", "RunUntil:helper-result:"+hname, ctx.Prog.Pos(h.Pos()), "a function that reads Logger returns a value: what the logger does could flow back into execution")
+		}
+		for _, b := range h.Blocks {
+			for _, in := range b.Instrs {
+				switch y := in.(type) {
+				case *ssa.Call:
+					callee := y.Call.StaticCallee()
+					_, isBuiltin := y.Call.Value.(*ssa.Builtin)
+					isRender := callee != nil && strings.HasPrefix(callee.Name(), "Disassemble")
+					isIface := y.Call.IsInvoke() // Logger.Write / capability methods: their receivers are checked by the scan
+					if !(isBuiltin || isRender || isIface || isHelperCall(y)) {
+						okPure = false
+						R.Fail("pure", "RunUntil:helper-call:"+hname, ctx.Prog.Pos(y.Pos()), "a logging helper calls something other than the renderer, the logger or another logging helper: "+y.String())
+					}
+					if callee != nil && callee.Name() == "Step" {
+						okPure = false
+					}
+				case *ssa.Store:
+					if a := rootAlloc(y.Addr); a == nil || !allocIsLocalOnly(a) {
+						okPure = false
+						R.Fail("pure", "RunUntil:helper-store:"+hname, ctx.Prog.Pos(y.Pos()), "a logging helper stores outside its own locals: "+y.String())
+					}
+				case *ssa.MapUpdate, *ssa.Send, *ssa.Go, *ssa.Defer, *ssa.Panic:
+					okPure = false
+					R.Fail("pure", "RunUntil:helper-effect:"+hname, ctx.Prog.Pos(in.Pos()), "a logging helper has an effect other than logging: "+in.String())
+				}
+			}
+		}
+		scan()
+	}
+	fn = mainFn
+	// helpers that write through other helpers
+	for changed := true; changed; {
+		changed = false
+		for _, h := range helperList {
+			if writesIn[h] {
+				continue
+			}
+			for _, c := range callsIn(h, func(f *ssa.Function) bool { return writesIn[f] }) {
+				_ = c
+				writesIn[h] = true
+				changed = true
+			}
+		}
+	}
+	// a call of a writing helper inside the loop is a trace write
+	for _, c := range callsIn(mainFn, func(f *ssa.Function) bool { return writesIn[f] }) {
+		nWrites++
+		if !L.Body[c.Block()] {
+			continue
+		}
+		before := reaches(c.Block(), step.Block(), L.Header) && !reaches(step.Block(), c.Block(), L.Header)
+		if c.Block() == step.Block() {
+			before = instrIndex(c) < instrIndex(step)
+		}
+		if !before {
+			okBefore = false
+			R.Fail("before", "RunUntil:write-before-step", ctx.Prog.Pos(c.Pos()), "within an iteration the trace write does not precede Step")
 		}
 	}
 	if nWrites == 0 {
